@@ -58,9 +58,11 @@ def obs (c : Ctx) : String :=
   s!"rel={join (c.released.map toString)} hc={join (c.hcalls.map toString)} ev={join (c.log.map evS)}"
 
 def pobs (p : Proc) : String :=
+  let lk := (p.dropped.map Ctx.threadCount).foldl (· + ·) 0
+  let l := if lk == 0 then "" else s!" leaked={lk}"
   match p.single with
-  | none => "single=none"
-  | some c => "single=set " ++ obs c
+  | none => "single=none" ++ l
+  | some c => "single=set " ++ obs c ++ l
 
 structure W where
   c : Ctx := Ctx.init false
